@@ -386,7 +386,7 @@ theorem secOfDay_bounds (s : Solar) (hv : s.valid = true) : 0 ≤ s.secOfDay ∧
 
 /-! ### the gaps between table entries -/
 
-theorem allAdj_get {α : Type} (f : α → α → Bool) :
+theorem allAdj_get_ns {α : Type} (f : α → α → Bool) :
     ∀ (l : List α), allAdj f l = true → ∀ (i : Nat) (h : i + 1 < l.length), f (l[i]'(by omega)) l[i + 1] = true := by
   intro l
   induction l with
@@ -416,7 +416,7 @@ theorem stamp_chain (ts : List Solar) (hadj : allAdj (fun a b => gapF a b) ts = 
   | succ k ih =>
     intro h
     have ih' := ih (by omega)
-    have hg := allAdj_get _ ts hadj (i + k) (by omega)
+    have hg := allAdj_get_ns _ ts hadj (i + k) (by omega)
     simp only [gapF, Bool.and_eq_true, decide_eq_true_eq] at hg
     have e : ts[i + (k + 1)] = ts[i + k + 1] := rfl
     rw [e]
